@@ -57,6 +57,10 @@ func (op Operator) Format(out io.Writer) error {
 			slices.Sort(keys)
 			for _, key := range keys {
 				val := dict[key]
+				if val == nil {
+					// a nil entry is equivalent to a missing entry
+					continue
+				}
 				if err := pdf.Format(out, pdf.OptContentStream, key); err != nil {
 					return err
 				}
